@@ -196,7 +196,11 @@ def f64_promote_f32(v: ir.f32) -> ir.f64:
 
 
 def f32_demote_f64(v: ir.f64) -> ir.f32:
-    return v
+    """Round to the nearest single precision value."""
+    try:
+        return struct.unpack("f", struct.pack("f", v))[0]
+    except OverflowError:
+        return math.copysign(math.inf, v)
 
 
 def f64_reinterpret_i64(v: ir.i64) -> ir.f64:
